@@ -140,7 +140,15 @@ pub fn ref_prove<G: AffineRepr>(
     let n = cs.gates;
     let n2 = n - n1;
     let padded = cs.padded();
-    let nz = nonces(n1, n2)?;
+    let mut nz = nonces(n1, n2)?;
+    if n2 == 0 {
+        // no second-phase commitments: nothing to blind
+        nz.beta_i2 = Fr::<G>::zero();
+        nz.beta_o2 = Fr::<G>::zero();
+        nz.sigma2 = Fr::<G>::zero();
+        nz.s_l2.clear();
+        nz.s_r2.clear();
+    }
     let (gs, hs) = gens(padded);
     let (a_i2, a_o2, s2) = if n2 > 0 {
         let mut ai = bbl.into_group() * nz.beta_i2;
